@@ -687,3 +687,150 @@ mod tests {
         ));
     }
 }
+
+/// Verification hooks: lets an external harness drive [`prune_non_relay_paths`] and
+/// [`RemotePathState`] directly.  Add-only; compiled only with the `verif-hooks` feature.
+#[cfg(feature = "verif-hooks")]
+pub(crate) mod verif {
+    use super::*;
+
+    /// Mirror of [`PathStatus`] with public visibility.
+    #[derive(Debug, Clone, Copy, PartialEq, Eq)]
+    pub enum VerifPathStatus {
+        /// [`PathStatus::Open`]
+        Open,
+        /// [`PathStatus::Inactive`]
+        Inactive(Instant),
+        /// [`PathStatus::Unusable`]
+        Unusable,
+        /// [`PathStatus::Unknown`]
+        Unknown,
+    }
+
+    impl From<&PathStatus> for VerifPathStatus {
+        fn from(s: &PathStatus) -> Self {
+            match s {
+                PathStatus::Open => Self::Open,
+                PathStatus::Inactive(t) => Self::Inactive(*t),
+                PathStatus::Unusable => Self::Unusable,
+                PathStatus::Unknown => Self::Unknown,
+            }
+        }
+    }
+
+    impl From<VerifPathStatus> for PathStatus {
+        fn from(s: VerifPathStatus) -> Self {
+            match s {
+                VerifPathStatus::Open => Self::Open,
+                VerifPathStatus::Inactive(t) => Self::Inactive(t),
+                VerifPathStatus::Unusable => Self::Unusable,
+                VerifPathStatus::Unknown => Self::Unknown,
+            }
+        }
+    }
+
+    /// Runs [`prune_non_relay_paths`] over a caller-built path map and returns what is left.
+    pub fn verif_prune_non_relay_paths(
+        input: Vec<(transports::Addr, VerifPathStatus)>,
+    ) -> Vec<(transports::Addr, VerifPathStatus)> {
+        let mut paths: FxHashMap<transports::Addr, PathState> = FxHashMap::default();
+        for (addr, status) in input {
+            paths.insert(
+                addr,
+                PathState {
+                    sources: HashMap::new(),
+                    status: status.into(),
+                },
+            );
+        }
+        prune_non_relay_paths(&mut paths);
+        paths
+            .iter()
+            .map(|(addr, state)| (addr.clone(), (&state.status).into()))
+            .collect()
+    }
+
+    /// Which [`Source`] an insertion is attributed to.
+    #[derive(Debug, Clone, Copy, PartialEq, Eq)]
+    pub enum VerifSource {
+        /// [`Source::App`]
+        App,
+        /// [`Source::AddressLookup`]
+        AddressLookup,
+        /// [`Source::Connection`]
+        Connection,
+    }
+
+    impl From<VerifSource> for Source {
+        fn from(s: VerifSource) -> Self {
+            match s {
+                VerifSource::App => Source::App,
+                VerifSource::AddressLookup => Source::AddressLookup {
+                    name: "verif".to_string(),
+                },
+                VerifSource::Connection => Source::Connection,
+            }
+        }
+    }
+
+    /// Public wrapper around a real [`RemotePathState`].
+    #[derive(Debug)]
+    pub struct VerifRemotePathState(RemotePathState);
+
+    impl Default for VerifRemotePathState {
+        fn default() -> Self {
+            Self(RemotePathState::new(Default::default()))
+        }
+    }
+
+    impl VerifRemotePathState {
+        /// See [`RemotePathState::insert_open_path`].
+        pub fn insert_open_path(&mut self, addr: transports::Addr, source: VerifSource) {
+            self.0.insert_open_path(addr, source.into())
+        }
+
+        /// See [`RemotePathState::abandoned_path`].
+        pub fn abandoned_path(&mut self, addr: &transports::Addr) {
+            self.0.abandoned_path(addr)
+        }
+
+        /// See [`RemotePathState::insert_multiple`].
+        pub fn insert_multiple(&mut self, addrs: Vec<transports::Addr>, source: VerifSource) {
+            self.0.insert_multiple(addrs.into_iter(), source.into())
+        }
+
+        /// See [`RemotePathState::resolve_remote`].
+        pub fn resolve_remote(&mut self, tx: oneshot::Sender<Result<(), AddressLookupFailed>>) {
+            self.0.resolve_remote(tx)
+        }
+
+        /// See [`RemotePathState::resolve_requests_is_empty`].
+        pub fn resolve_requests_is_empty(&self) -> bool {
+            self.0.resolve_requests_is_empty()
+        }
+
+        /// See [`RemotePathState::address_lookup_finished`].
+        pub fn address_lookup_finished(&mut self, result: Result<(), AddressLookupFailed>) {
+            self.0.address_lookup_finished(result)
+        }
+
+        /// See [`RemotePathState::prune_paths`].
+        pub fn prune_paths(&mut self) {
+            self.0.prune_paths()
+        }
+
+        /// See [`RemotePathState::is_empty`].
+        pub fn is_empty(&self) -> bool {
+            self.0.is_empty()
+        }
+
+        /// All paths with their status.
+        pub fn snapshot(&self) -> Vec<(transports::Addr, VerifPathStatus)> {
+            self.0
+                .paths
+                .iter()
+                .map(|(addr, state)| (addr.clone(), (&state.status).into()))
+                .collect()
+        }
+    }
+}
